@@ -1048,7 +1048,7 @@ MUTANTS = [
            more=[(_V, "import base64\n", "import base64\nimport math\n")], expect_rule="lifetime/"),
     Mutant("age-computed-from-rounded-down-clock-minus-one", _V, "            int(self._getTime()) - when\n            > DigestCredentialFactory", "            int(self._getTime() - 0.5) - when\n            > DigestCredentialFactory",
            expect_rule="lifetime/accepted-instants-equal-spec"),
-    # reverts of the repairs prepared in /verif/fixes/F48c and F48d (not applicable until those fix: commits are in /repo)
+    # reverts of the fix: commits 291fee8 (F48c) and d0fbfb0 (F48d)
     Mutant("revert-F48c-unsupported-algorithm", _V,
            "        # The response can only be checked with an algorithm we know\n        if auth.get(\"algorithm\", b\"md5\").lower() not in algorithms:\n            raise error.LoginFailed(\"Invalid response, unsupported algorithm.\")\n\n",
            "", expect_rule="check-never-raises/unknown-algorithm"),
